@@ -95,6 +95,23 @@ CHECKS.update({
             "effect-summary extraction + sibling comparison + provenance on MIR via rustc_private driver"),
 })
 
+CHECKS.update({
+    "C07": ("The type-level half of naming is decided completely: 24 associated-type definitions of the four NameStyle impls compared "
+            "(as definitions generic in PREFIX) with the table derived from the trait's GAT parameter names; every arm of the 0..=100 "
+            "concatenation table checked on the MIR of the associated const and, independently, by 400+ const assertions discharged by "
+            "rustc's constant evaluator. The proc macro's procedural string code is explicitly NOT decided (would need running the macro).",
+            "§4 C07", "associated-type table check + MIR switch-arm check + const-evaluated obligations (compile-time witness crate)"),
+    "C11": ("Arm tables of the three observation-capture copies (recording call, count origin, guard, once-per-observation) against the "
+            "reference and against each other; drain closures (filter count>0, occurrences from Bucket::count(), total = scale_down(midpoint)"
+            "*count); atomic vs non-atomic strategy agreement incl. bucket configuration. All numeric error bounds are not decided.",
+            "§4 C11", "arm-table extraction + sibling cross-check on MIR via rustc_private driver"),
+    "C19": ("872 closed constant obligations (every ordered pair of convertible units, inverses, all unit names, None->X, Duration default) "
+            "enumerated exhaustively against an independent table and discharged by rustc's constant evaluator; cross-family conversion and "
+            "unit-on-string rejected by the type checker (compile_fail witnesses with compiling twins); MIR rules for the converting writer "
+            "and Convert::convert. Floating-point rounding of value x ratio is not decided.", "§4 C19",
+            "const-evaluated obligations + compile-fail witnesses (type checker) + MIR path rules"),
+})
+
 NA_PENDING = {}
 
 def main():
